@@ -993,6 +993,20 @@ M('C07', 'gauge fix reads each tensor right before its write (equivalent)', MPS,
         self.set_B(i1, npc.tensordot(Yr, B1, axes=['vR', 'vL']))
 """, None, expect='silent')
 
+M('C13', '_mix_LR reads IdL of the bond left of i0 (round-3 seed a)', MC,
+  "IdL, IdR = H.get_IdL(i0 + 1), H.get_IdR(i0)", "IdL, IdR = H.get_IdL(i0), H.get_IdR(i0)",
+  'MPO-bond-coherence')
+M('C13', '_mix_LR reads the two identity indices separately (equivalent)', MC,
+  "    IdL, IdR = H.get_IdL(i0 + 1), H.get_IdR(i0)\n", "    IdR = H.get_IdR(i0)\n    IdL = H.get_IdL(1 + i0)\n",
+  None, expect='silent')
+M('C13', 'TwoSiteH.adjoint leaves the combined tensors unconjugated (round-3 seed b)', MC,
+  """        adj.W1 = self.W1.conj().ireplace_labels(['wL*', 'wR*'], ['wL', 'wR'])
+        if self.combine:
+            adj.LHeff = self.LHeff.conj().ireplace_label('wR*', 'wR')
+            adj.RHeff = self.RHeff.conj().ireplace_label('wL*', 'wL')
+""", """        adj.W1 = self.W1.conj().ireplace_labels(['wL*', 'wR*'], ['wL', 'wR'])
+""", 'HEFF-adjoint')
+
 # ---------------------------------------------------------------- C16 / C19
 M('C16', 'GMRES restart: relative residual norm used for normalisation (round-3 seed b)', KRY,
   """        self.total_error.append([npc.norm(self.rs[-1]) / self.b_norm])
